@@ -33,6 +33,8 @@ def fold(t, env):
         raise Unfoldable(N.show(t))
     if k == "lin":
         return sum(c * fold(a, env) for a, c in t[1]) + t[2]
+    if k == "c" and isinstance(t[2], float):
+        return t[2]
     if k == "mul":
         return fold(t[1], env) * fold(t[2], env)
     if k == "mod":
@@ -54,6 +56,13 @@ def fold(t, env):
             if b == 0:
                 raise Raises("division by zero")
             return a // b
+        if op == "/":
+            if b == 0:
+                raise Raises("division by zero")
+            try:
+                return a / b            # Python semantics: a float, with its 53-bit mantissa
+            except OverflowError:
+                raise Raises("integer division result too large for a float")
         if op == "&":
             return a & b
         if op == "|":
@@ -61,6 +70,11 @@ def fold(t, env):
         if op == "^":
             return a ^ b
         raise Unfoldable(op)
+    if k == "call" and t[1] == ("free", "int") and len(t[2]) == 1:
+        try:
+            return int(fold(t[2][0], env))
+        except (OverflowError, ValueError):
+            raise Raises("int() of a non-finite float")
     if k == "call" and t[1] == ("free", "abs") and len(t[2]) == 1:
         return abs(fold(t[2][0], env))
     if k == "atom" and t[1] in env:
